@@ -47,6 +47,7 @@ class StepCounter:
         self.count = 0
         self.limit = None
         self.ok = False
+        self.missing_hook = False
         mon = getattr(sys, 'monitoring', None)
         if mon is None:
             return
@@ -57,7 +58,13 @@ class StepCounter:
         except ValueError:
             self.tool = mon.OPTIMIZER_ID
             mon.use_tool_id(self.tool, 'rv-c14')
-        code = gcore._extend_children.__code__
+        fn = getattr(gcore, '_extend_children', None)
+        if fn is None:
+            # the expansion helper this monitor hooks by name is gone (renamed / inlined): expansions cannot be counted on this tree
+            self.missing_hook = True
+            mon.free_tool_id(self.tool)
+            return
+        code = fn.__code__
         mon.register_callback(self.tool, mon.events.PY_START, self._cb)
         mon.set_local_events(self.tool, code, mon.events.PY_START)
         self.code = code
@@ -624,13 +631,46 @@ def wildcards_follow_the_registry_in_force(col):
         col.violation('C14/wildcard-ignores-the-registry-in-force', "after glom.register(_Walked, iterate=..): 'w.*' gave %r, expected ['p', 'q']" % (got,), None)
 
 
+def wildcard_mutation_over_mixed_kinds(col):
+    """Assign / Delete through a wildcard act on EVERY entry with the operation of that entry's own kind (dict item, attribute,
+    integer-coerced list index), in string, Path and T spelling"""
+    def mixed():
+        o = Obj(); o.k = 1; o.other = 2
+        return {'rows': [{'k': 1, 'other': 2}, o, {'k': 3}]}
+
+    def state(t):
+        return [dict(r) if isinstance(r, dict) else dict(r.__dict__) for r in t['rows']]
+    for spelling, path in (('string', 'rows.*.k'), ('path', Path('rows', T.__star__(), 'k'))):
+        for op in ('delete', 'delete-ignore', 'assign'):
+            t = mixed()
+            if op == 'assign':
+                got, want = call(assign, t, path, 'NEW'), [{'k': 'NEW', 'other': 2}, {'k': 'NEW', 'other': 2}, {'k': 'NEW'}]
+            else:
+                got, want = call(delete, t, path, ignore_missing=(op == 'delete-ignore')), [{'other': 2}, {'other': 2}, {}]
+            col.case(('mixed-kinds', spelling, op), True)
+            col.count('wildcard_mutations')
+            if not got.ok or state(t) != want:
+                col.violation('C14/wildcard-%s-over-mixed-kinds' % op.split('-')[0], '%s(.., %s) over [dict, object, dict]: %r ; rows now %s, expected %s'
+                              % (op, short(path), got if not got.ok else 'returned', state(t), want), None)
+    # a list and a dict addressed by the same digit segment
+    t = {'rows': [['a', 'b'], {'0': 'zero', '1': 'one'}]}
+    got = call(delete, t, 'rows.*.0')
+    col.count('wildcard_mutations')
+    if not got.ok or t != {'rows': [['b'], {'1': 'one'}]}:
+        col.violation('C14/wildcard-delete-over-mixed-kinds', "delete(.., 'rows.*.0') over [list, dict]: %r ; now %r" % (got if not got.ok else 'returned', t), None)
+
+
 def run(ctx):
     col, rng = ctx.col, ctx.rng
     counter = StepCounter()
-    if not counter.ok:
+    if not counter.ok and not counter.missing_hook:
         col.fail_inconclusive('sys.monitoring unavailable: expansion steps cannot be counted')
         return
-    col.require('expansions_counted', 1000)
+    if counter.missing_hook:
+        # the termination part (logical step budget) is inconclusive; the entry-by-entry comparisons need no hook and still run
+        col.fail_inconclusive('glom.core._extend_children, which the step counter hooks, does not exist on this tree')
+    else:
+        col.require('expansions_counted', 1000)
     col.require('wildcard_evaluations', 1000)
     col.require('wildcard_mutations', 100)
     try:
@@ -642,6 +682,7 @@ def run(ctx):
             mutate_case(col, rng)
         if ctx.shard == 0:
             wildcards_follow_the_registry_in_force(col)
+            wildcard_mutation_over_mixed_kinds(col)
             after_path_cache_overflow(col, rng)
             col.require('path_cache_overflows', 1)
     finally:
